@@ -228,6 +228,16 @@ def serve_run(tier, seed):
     return agg, r, n
 
 
+def serve_exp_run(tier, seed):
+    """C13 at the protocol level, experimental engine: at the end of each behaviour the node asks for headers."""
+    chainbin = fc.build()
+    listed = {f["deviation"]: f for f in c.findings_for("C06") + c.findings_for("C07") if f.get("deviation")}
+    F = tuple(sorted(listed))
+    consts = exp_families(tier, F)[0][1]
+    out, n, r = fs.generate_exp("C13x", consts, sample=800 if tier == "quick" else 8000, rng=random.Random(seed))
+    return fc.replay(chainbin, out, seed, op="syncexp", nproc=c.NCPU, timeout=600), r, n
+
+
 def c06(tier, seed, replay_path=None):
     return sync_run("C06", tier, seed, {"sync-outcome"}, replay_path)
 
